@@ -2,7 +2,8 @@
    ONLY statements, each closed by `exact`, each followed by Print Assumptions. *)
 From Coq Require Import List Arith ZArith QArith Qcanon Reals.
 From BZ Require Import Base.Ops Base.QcInst Model.Curve Model.CurvePy Gen.PyCurveHelpers
-  Theory.CurveEval Theory.CurveSubdiv Theory.CurveTables Base.RInst Theory.Rounding Theory.SubdivRound Theory.Binary64.
+  Theory.CurveEval Theory.CurveSubdiv Theory.CurveTables Base.RInst Theory.Rounding Theory.SubdivRound Theory.Binary64
+  Gen.F90Const Theory.Twins.
 Import ListNotations.
 
 (* specialize_curve returns the control points of sigma -> B(a + (b-a) sigma):
@@ -101,3 +102,15 @@ Example C04_example :
   let lr := subdivide_nodes_py (qcs [0; 1; 3; 2]%Q) in
   vec_eqb (fst lr) (qcs [0; 1#2; 5#4; 7#4]%Q) && vec_eqb (snd lr) (qcs [7#4; 9#4; 5#2; 2]%Q) = true.
 Proof. vm_compute. reflexivity. Qed.
+
+(* the closed forms hard-coded in curve.f90 subdivide_nodes (2, 3, 4 nodes), evaluated symbolically by the translator from the
+   Fortran text, ARE the Python tables - which are the generic construction (C04_tables_are_generic above); the other sizes call
+   the generic routine *)
+Theorem C04_compiled_closed_forms_are_the_python_tables :
+  forallb (fun e => match lookup (fst e) subdivide_dispatch with
+                    | Some (L, R) => qmat_eqb (fst (snd e)) L && qmat_eqb (snd (snd e)) R
+                    | None => false
+                    end) f90_curve_subdivide_closed_forms = true
+  /\ map fst f90_curve_subdivide_closed_forms = map fst subdivide_dispatch.
+Proof. exact compiled_subdivision_closed_forms_are_the_python_tables. Qed.
+Print Assumptions C04_compiled_closed_forms_are_the_python_tables.
